@@ -1,7 +1,8 @@
-From Coq Require Import ZArith Reals.
+From Coq Require Import ZArith Reals Lra.
 From Flocq Require Import Core BinarySingleNaN.
-Require Import GV.FloatBase GV.FloatLemmas GV.AngleM GV.AngleProofs GV.Properties.C03.
+Require Import GV.FloatBase GV.FloatLemmas GV.AngleM GV.AngleProofs.
 Open Scope R_scope.
+Require Import GV.Properties.C03.
 Check C03_spellings : forall a b,
   add_vv a b = geometric_add a b /\ add_vr a b = geometric_add a b /\
   add_rv a b = geometric_add a b /\ add_rr a b = geometric_add a b /\
